@@ -10,7 +10,28 @@ import common
 import gen
 
 
-def project_output(out):
+def _shift_times(o, off):
+    """Subtract the instance's time offset from every time field of a projected answer (in place)."""
+    if isinstance(o, dict):
+        for k, v in o.items():
+            if k in ("dep", "arr", "start", "end") and isinstance(v, int) and v not in (gen.EARLIEST, gen.LATEST):
+                o[k] = v - off
+            else:
+                _shift_times(v, off)
+    elif isinstance(o, list):
+        for x in o:
+            _shift_times(x, off)
+
+
+def project_output(out, offset=0):
+    """offset: seconds the abstract instance's times were shifted by (instances read from given input files)."""
+    O = _project_output(out)
+    if offset:
+        _shift_times(O, offset)
+    return O
+
+
+def _project_output(out):
     """Returned JSON -> O (ISO times parsed to integer seconds; structure copied, nothing computed)."""
     obj = out["objectiveValue"]
     sch = out["schedule"]
@@ -160,7 +181,7 @@ def build_trace(instances, results, profile):
                 if e["label"] == "ls_step":
                     nsteps += 1
             elif e["ev"] == "output":
-                trace.append({"ev": "output", "li": li, "fi": idx["final"], "O": project_output(e["out"])})
+                trace.append({"ev": "output", "li": li, "fi": idx["final"], "O": project_output(e["out"], I.get("_offset", 0))})
                 idx["out"] = len(trace)
             elif e["ev"] == "panic":
                 trace.append({"ev": "panic", "li": li, "msg": e["msg"]})
@@ -175,7 +196,7 @@ def build_trace(instances, results, profile):
                 trace.append({"ev": "base", "li": li, "S": e["S"]})
                 base = len(trace)
             elif e["ev"] == "cand":
-                trace.append({"ev": "cand", "li": li, "bi": base, "swap": e["swap"][:60], "sw": e["sw"], "S": e["S"]})
+                trace.append({"ev": "cand", "li": li, "bi": base, "swap": e["swap"][:60], "kind": e.get("kind", ""), "sw": e["sw"], "S": e["S"]})
                 ncand += 1
             elif e["ev"] == "candfail":
                 trace.append({"ev": "candfail", "li": li, "swap": e["swap"][:60], "msg": e["msg"]})
@@ -200,6 +221,23 @@ def build_trace(instances, results, profile):
     return trace, meta
 
 
+def bundled_instances():
+    """The input files that ship with the repository (as they are, including the variant with explicit nulls)."""
+    out = []
+    for rel in ("model/resources/small_test_input.json", "model/resources/small_test_input_with_null_values.json",
+                "model/resources/small_test_input_without_maintenance.json", "solution/resources/test_instance.json"):
+        p = os.path.join(common.REPO, rel)
+        if not os.path.exists(p):
+            continue
+        try:
+            with open(p) as f:
+                inp = json.load(f)
+            out.append(gen.from_input(inp, "bundled_" + os.path.basename(rel)[:-5]))
+        except (ValueError, KeyError, TypeError, IndexError):
+            continue     # a bundled file this reader cannot interpret is skipped, never judged
+    return out
+
+
 def corpus(tier, seed, profile="release", n=None, per_instance_timeout=60, chunk=150, instances=None,
            tag="pipe", cmd=("solve",), extra=None, only_slots=False, seed_shift=0):
     """Cached pipeline corpus (cache key: repo content hash, tier, seed, profile, size).
@@ -220,6 +258,8 @@ def corpus(tier, seed, profile="release", n=None, per_instance_timeout=60, chunk
         if tier == "thorough" and tag == "pipe":
             # larger instances as well (up to 16 departure segments)
             instances += [gen.gen_instance(seed + seed_shift + 17, n + i, max_trips=16) for i in range(n // 4)]
+        if tag == "pipe":
+            instances += bundled_instances()
         if only_slots:
             instances = [I for I in instances if I["slots"]]
     else:
